@@ -71,7 +71,8 @@ type Probe struct {
 type Pool struct {
 	Probes  []Probe  `json:"probes"`
 	Methods []string `json:"methods"`
-	URLPats []string `json:"urlpats"`
+	URLs    []Op     `json:"urls"` // URL calls made after the request probes (C10)
+	RT      bool     `json:"rt"`   // round trip: build the URL of every dispatched route from its captured parameters
 }
 
 type Op struct {
